@@ -61,15 +61,27 @@ void FeatureChecker::visitEdge(edge_t& edge)
 
 void FeatureChecker::visitGuard(expression_t& guard)
 {
+    if (guard.empty())
+        return;
     switch (guard.get_kind()) {
     case Constants::LT:
     case Constants::LE:
     case Constants::EQ:
+    case Constants::NEQ:
+    case Constants::GE:
+    case Constants::GT:
         for (size_t i = 0; i < guard.get_size(); ++i) {
             if (guard.get(i).uses_fp())
                 supported_methods.symbolic = false;
         }
-    default: break;
+        break;
+    default:
+        // comparisons may sit anywhere below conjunctions, disjunctions, negations and quantifiers
+        for (size_t i = 0; i < guard.get_size(); ++i) {
+            auto sub = guard.get(i);
+            visitGuard(sub);
+        }
+        break;
     }
 }
 
